@@ -138,6 +138,13 @@ claim("C08",
       "the 0/60/120-degree rays; parity adjustments of isInFirstThird. Counting orbit members in the domain is not decided.",
       COMMON_NOTE, "exact normal forms over Q(sqrt3) + linear-map extraction + decision-tree substitution", "DESIGN.md section 3 C08")
 
+claim("C13",
+      "Static analysis (partial, exact): per-iteration all-paths counting in ThirdCoreHexToFullCoreChanger.convert (one deep-copied, unique, rotated, recorded assembly per image, placed at "
+      "the image's cell); exact agreement (Q(sqrt3) algebra) between the order in which the grid lists the third-core images and the n x 120-degree rotation convert applies to the n-th; restore "
+      "removing exactly the recorded assemblies with discharge=False and Core.removeAssembly pooling only on discharge; edge assemblies added iff recorded; caches of the remaining boundary "
+      "assemblies cleared; scale up/down inverse by 3 under one centre condition with the list computed after the geometry changes. Numerical x3 totals and bit-exact restoration are not decided.",
+      COMMON_NOTE, "all-paths event counting + path conditions + exact lattice algebra + ordering", "DESIGN.md section 3 C13")
+
 NA_REASON = {}
 
 
